@@ -6,8 +6,10 @@ single commit call (rename/persist); the commit dominates every success exit; it
 checked; the temporary lives in the destination's directory and is owned by a delete-on-drop
 value; nothing reachable from the writers, and no caller, writes the destination directly.
 """
+import re
+
 from .. import mirg, rules
-from ..mirg import Cfg, iter_calls, callee
+from ..mirg import Cfg, iter_calls, callee, plocal
 from ..rules import norm, ncallee, Derive
 
 META = {
@@ -67,6 +69,43 @@ def dest_pred(prog, fn, spec):
                 if len(cands) == 1:
                     idx = cands[0]
     return lambda w: w[0] == local and len(w[1]) >= 1 and w[1][0] == idx
+
+
+def _after_success(fn, cfg, t):
+    """blocks reachable once the commit call has *succeeded*: from the Ok / Continue arm of the first branch on its result
+    (`?`, `match`, `if let Err(..)`); the blocks of the failure arm are not "after the commit" — the destination is still the old one
+    there.  Falls back to everything after the call when no such branch is recognised."""
+    blocks = fn.mir["blocks"]
+    res = {plocal(t["d"])}
+    cur = t["t"]
+    seen = set()
+    while cur is not None and cur not in seen:
+        seen.add(cur)
+        b = blocks[cur]
+        for st in b["s"]:
+            if st[0] == "=" and st[2][0] in ("use", "discr", "ref") and any(mirg.op_local(o) in res for o in mirg.rvalue_operands(st[2])):
+                res.add(plocal(st[1]))
+        tt = b["t"]
+        if tt["k"] == "call" and any(mirg.op_local(a) in res for a in tt["a"]) and re.search(r"(::map_err|Try>::branch|::map$|::context|::with_context)", mirg.callee(tt) or ""):
+            res.add(plocal(tt["d"]))
+            cur = tt.get("t")
+            continue
+        if tt["k"] == "switch" and mirg.op_local(tt["d"]) in res:
+            ok_t = [t_ for v_, t_ in tt["ts"] if v_ == 0]
+            if ok_t:
+                return cfg.reachable(ok_t[0])
+            # `[1: err] otherwise: ok`
+            if tt.get("o") is not None and all(v_ != 0 for v_, _ in tt["ts"]):
+                return cfg.reachable(tt["o"])
+            break
+        if tt["k"] == "goto":
+            cur = tt["t"]
+            continue
+        if tt["k"] in ("drop",):
+            cur = tt.get("t")
+            continue
+        break
+    return cfg.reachable(t["t"])
 
 
 def run(ctx):
@@ -144,7 +183,7 @@ def run(ctx):
         after = set()
         for bb, t, _ in commits:
             if t.get("t") is not None:
-                after |= cfg.reachable(t["t"])
+                after |= _after_success(fn, cfg, t)
         for bb, t, c, direct in others:
             key = "%s|%s|dest" % (wpath, c)
             if direct and bb not in after:
